@@ -63,4 +63,64 @@ def unpack3 (l : List Nat) : R (Nat × Nat × Nat) := match l with | [a, b, c] =
 /-- `tokens[i]` with Python's negative-index wrap-around -/
 def toksAt (l : List Token) (i : Int) : R Token := Py.getIdx l i
 
+/-! ### `Decimal(str)` -/
+
+/-- what `Decimal(tok)` gives for a lexer token: a finite value, or one of the specials (`inf`, `infinity`, `nan`,
+    `snan` in any letter case) -/
+inductive DecimalV where
+  | fin (d : Dec)
+  | special
+  deriving Repr, DecidableEq, Inhabited
+
+/-- `Decimal(tok)`; anything else is `InvalidOperation` (ConversionSyntax) -/
+def decimalCtor (cls : Char → CClass) (t : Token) : R DecimalV :=
+  match numForm cls t with
+  | some d => .ok (.fin d)
+  | none =>
+    let w := t.map Char.toLower
+    if w == tk "inf" || w == tk "infinity" || w == tk "nan" || w == tk "snan" then .ok .special
+    else .error .InvalidOperation
+
+def DecimalV.isFinite : DecimalV → Bool
+  | .fin _ => true
+  | .special => false
+
+/-- the Decimal behind a value for which `is_finite()` held (a special here is the distinguished error
+    NotImplemented, which the obligation shows is never produced) -/
+def decFinite : DecimalV → R Dec
+  | .fin d => .ok d
+  | .special => .error .NotImplemented
+
+/-! ### str -/
+
+/-- split at the first `c` -/
+def splitFirst (c : Char) : List Char → List Char × Option (List Char)
+  | [] => ([], none)
+  | x :: xs => if x = c then ([], some xs) else
+      let (a, b) := splitFirst c xs
+      (x :: a, b)
+
+/-- `a, b = s.split(c)`: ValueError unless there are exactly two pieces -/
+def split2 (s : Token) (c : Char) : R (Token × Token) :=
+  match splitFirst c s with
+  | (a, some b) => if b.contains c then .error .ValueError else .ok (a, b)
+  | (_, none) => .error .ValueError
+
+/-- `s.ljust(n, c)` -/
+def ljust (s : Token) (n : Nat) (c : Char) : Token := s ++ List.replicate (n - s.length) c
+
+/-! ### a datetime as far as `_assign_tzname` looks at it -/
+
+/-- the zone's names for the wall time at fold 0 and at fold 1, and the fold the datetime carries -/
+structure FoldDt where
+  n0 : Option Token
+  n1 : Option Token
+  fold : Nat := 0
+  deriving Repr, DecidableEq, Inhabited
+
+/-- `dt.tzname()` -/
+def FoldDt.tzname (d : FoldDt) : Option Token := if d.fold = 0 then d.n0 else d.n1
+/-- `tz.enfold(dt, fold=k)` -/
+def FoldDt.enfold (d : FoldDt) (k : Nat) : FoldDt := { d with fold := k }
+
 end PPy
